@@ -78,6 +78,8 @@ def run(repo, rep):
              'PS3.7 element of that attribute; command_fields keywords exist in group 0000 and start with CommandGroupLength', 23)
     rep.rule('C08.M2', 'set_length sums the encoded length of every element except (0000,0000) and stores it there', 1)
     rep.rule('C08.M3', 'Association.send computes the group length before encoding, on the object it encodes', 1)
+    rep.rule('C08.M5', 'the stored data set is written only through the data_set setter (and initialised to "none" by the '
+             'constructor): nothing else can make the Command Data Set Type disagree with what encode() will emit', 1)
     rep.rule('C08.M4', 'the data_set setter sets CommandDataSetType on both outcomes of the test encode() uses', 1)
 
     # ---------------------------------------------------------------- M0
@@ -307,6 +309,28 @@ def run(repo, rep):
     rep.check(not probs, 'C08.M2', 'dimsemessages:DIMSEMessage.set_length:exclusion', sl.loc(),
               'sum over all elements except (0000,0000) (%s), stored in (0000,0000)' %
               ('filtered by tag' if by_tag else 'first of a tag-sorted sequence'), '; '.join(probs))
+
+    # ---------------------------------------------------------------- M5: who may write the stored data set
+    p5w = []
+    n_w = 0
+    for f5 in repo.all_functions():
+        for n in ast.walk(f5.node):
+            tg = []
+            if isinstance(n, (ast.Assign, ast.AugAssign, ast.Delete)):
+                tg = [t for t in (n.targets if isinstance(n, (ast.Assign, ast.Delete)) else [n.target])
+                      if isinstance(t, ast.Attribute) and t.attr == '_data_set']
+            elif isinstance(n, ast.Call) and norm(n.func) == 'setattr' and len(n.args) >= 2 and isinstance(n.args[1], ast.Constant) \
+                    and n.args[1].value == '_data_set':
+                tg = [n]
+            for t in tg:
+                n_w += 1
+                if f5.key == 'dimsemessages:DIMSEMessage.data_set.setter':
+                    continue
+                if f5.key == 'dimsemessages:DIMSEMessage.__init__' and isinstance(n, ast.Assign) and isinstance(n.value, ast.Constant) \
+                        and n.value.value is None:
+                    continue
+                p5w.append('%s writes _data_set directly (line %d), bypassing the setter that keeps CommandDataSetType in step' % (f5.key, n.lineno))
+    rep.check(not p5w, 'C08.M5', 'dimsemessages:DIMSEMessage._data_set:writers', dm.relpath, '%d writer sites' % n_w, '; '.join(p5w))
 
     # ---------------------------------------------------------------- M3
     send = repo.func('asceprovider', 'Association.send')
